@@ -559,15 +559,15 @@ example : Gen.FactsC05.parallelAnalyse = [
   "for v6 := range v5 {",
   "v5[v6] = make(chan Document)",
   "}",
-  "go func() { defer func() { for _, v7 := range v5 { close(v7) } }() for v8 := range v3 { select { case v5[v8.Id%uint64(v4)] <- v8: case <-v2.Done(): return } } }()",
-  "v9 := make([]<-chan analysedDocument, v4)",
-  "v10 := make([]<-chan error, v4)",
-  "for v11 := 0; v11 < v4; v11 += 1 {",
-  "v12, v13 := utils.TransformWithContext(v2, v5[v11], func(v14 Document) (v15 analysedDocument, v16 bool, v17 error) { v18, v17 := v1.analyser.Analyse(v14.Text) if v17 != nil { return } v19 := make(map[string]int) for _, v20 := range v18 { v19[v20.Term] += 1 } v15.Id = v14.Id v15.Frequencies = v19 v15.Length = len(v18) return })",
-  "v9[v11] = v12",
-  "v10[v11] = v13",
+  "go func() { defer func() { for _, b1 := range v5 { close(b1) } }() for a1 := range v3 { select { case v5[a1.Id%uint64(v4)] <- a1: case <-v2.Done(): return } } }()",
+  "v7 := make([]<-chan analysedDocument, v4)",
+  "v8 := make([]<-chan error, v4)",
+  "for v9 := 0; v9 < v4; v9 += 1 {",
+  "v10, v11 := utils.TransformWithContext(v2, v5[v9], func(a1 Document) (a2 analysedDocument, a3 bool, a4 error) { a5, a4 := v1.analyser.Analyse(a1.Text) if a4 != nil { return } a6 := make(map[string]int) for _, a7 := range a5 { a6[a7.Term] += 1 } a2.Id = a1.Id a2.Frequencies = a6 a2.Length = len(a5) return })",
+  "v7[v9] = v10",
+  "v8[v9] = v11",
   "}",
-  "return utils.MergeWithContext(v2, v9...), utils.MergeErrorsWithContext(v2, v10...)"
+  "return utils.MergeWithContext(v2, v7...), utils.MergeErrorsWithContext(v2, v8...)"
 ] := rfl
 
 /-- shard/index/text/text.go `indexText.flush`: write-back of _numDocuments and both caches (Model.flush) -/
@@ -631,12 +631,12 @@ example : Gen.FactsC05.search = [
   "v27 := models.SearchResult{ NodeId: v16, Score: &v19, HybridScore: v19 * v13, }",
   "v14 = append(v14, v27)",
   "}",
-  "slices.SortFunc(v14, func(v28, v29 models.SearchResult) int { return cmp.Compare(*v29.Score, *v28.Score) })",
+  "slices.SortFunc(v14, func(a1, a2 models.SearchResult) int { return cmp.Compare(*a2.Score, *a1.Score) })",
   "if len(v14) > v2.Limit {",
   "v12.Clear()",
   "v14 = v14[:v2.Limit]",
-  "for _, v30 := range v14 {",
-  "v12.Add(v30.NodeId)",
+  "for _, v28 := range v14 {",
+  "v12.Add(v28.NodeId)",
   "}",
   "}",
   "return v12, v14, nil"
